@@ -164,10 +164,7 @@ func (e *SpecEnv) eval(x SExpr) Val {
 			return nil
 		}
 	case *SIdent:
-		if n.Name == "result" {
-			if e.res == nil {
-				e.fail("result used outside ensures")
-			}
+		if n.Name == "result" && e.res != nil {
 			if t, ok := e.res.(Tup); ok && len(t.E) == 1 {
 				return t.E[0]
 			}
@@ -537,10 +534,10 @@ func (e *SpecEnv) call(n *SCall) Val {
 		return e.rawArr(e.eval(n.Args[0]))
 	case "key2":
 		a, b := e.evalInt(n.Args[0]), e.evalInt(n.Args[1])
-		return scInt(tAdd(tMul("256", a), b))
+		return scInt(app("key!2", a, b))
 	case "key3":
 		a, b, c := e.evalInt(n.Args[0]), e.evalInt(n.Args[1]), e.evalInt(n.Args[2])
-		return scInt(tAdd(tMul("256", tAdd(tMul("256", a), b)), c))
+		return scInt(app("key!3", a, b, c))
 	case "seen":
 		s, ok := e.curState().ghost["seen"]
 		if !ok {
@@ -576,15 +573,7 @@ func (e *SpecEnv) rawArr(v Val) Val {
 		if b.Off == "0" {
 			return arr
 		}
-		c := e.c()
-		key := "shift:" + arr.T + ":" + b.Off
-		if n, ok := c.strLits[key]; ok {
-			return Sc{n, arr.S}
-		}
-		n := c.fresh("shifted", arr.S)
-		c.strLits[key] = n
-		c.assume(tTrue, tForall([][2]string{{"i!h", SInt}}, tEq(tSel(n, "i!h"), tSel(arr.T, tAdd("i!h", b.Off))), tSel(n, "i!h")))
-		return Sc{n, arr.S}
+		return e.c().normView(b).Arr
 	case Ar:
 		return b.Arr
 	case Sc:
